@@ -370,32 +370,41 @@ class Zeroconf(QuietLogger):
         Zeroconf will then respond to requests for information for that
         service."""
         old_info = self.registry.async_get_info_name(info.key)
+        # The records must be collected before the registry drops the memoised
+        # ones: the application may have changed the object it registered.
+        old_records = self._async_service_records(old_info) if old_info is not None else set()
         self.registry.async_update(info)
         if old_info is not None:
-            self._async_withdraw_queued_answers(old_info, info)
+            self._async_withdraw_queued_answers(old_records, old_info, info)
         return asyncio.ensure_future(self._async_broadcast_service(info, _REGISTER_TIME, None))
 
-    def _async_withdraw_queued_answers(self, old_info: ServiceInfo, new_info: Optional[ServiceInfo]) -> None:
+    @staticmethod
+    def _async_service_records(info: ServiceInfo) -> Set[DNSRecord]:
+        """All records a service is answered with."""
+        records: Set[DNSRecord] = {info.dns_pointer(), info.dns_service(), info.dns_text()}
+        records.update(info.get_address_and_nsec_records())
+        return records
+
+    def _async_withdraw_queued_answers(
+        self, withdrawn: Set[DNSRecord], old_info: ServiceInfo, new_info: Optional[ServiceInfo]
+    ) -> None:
         """Drop queued multicast answers that hold records of a service which no longer apply.
 
         Answers waiting in the aggregation queues were built from the registry
         as it was when the query arrived; once the service is unregistered or
         updated they must not be multicast any more.
         """
-        withdrawn: Set[DNSRecord] = {old_info.dns_pointer(), old_info.dns_service(), old_info.dns_text()}
-        withdrawn.update(old_info.get_address_and_nsec_records())
         if new_info is not None:
-            withdrawn -= {new_info.dns_pointer(), new_info.dns_service(), new_info.dns_text()}
-            withdrawn -= new_info.get_address_and_nsec_records()
+            withdrawn = withdrawn - self._async_service_records(new_info)
         if old_info.server_key is not None:
             for other in self.registry.async_get_infos_server(old_info.server_key):
                 if other is not new_info:
-                    withdrawn -= other.get_address_and_nsec_records()
+                    withdrawn = withdrawn - other.get_address_and_nsec_records()
         if not self.registry.async_get_infos_type(old_info.type.lower()):
             # the last service of this type is gone: so is its type enumeration answer
-            withdrawn.add(
+            withdrawn = withdrawn | {
                 DNSPointer(_SERVICE_TYPE_ENUMERATION_NAME, _TYPE_PTR, _CLASS_IN, _DNS_OTHER_TTL, old_info.type, 0.0)
-            )
+            }
         if withdrawn:
             self.out_queue.async_remove_answers(withdrawn)
             self.out_delay_queue.async_remove_answers(withdrawn)
@@ -496,7 +505,7 @@ class Zeroconf(QuietLogger):
         assert info.server_key is not None
         entries = self.registry.async_get_infos_server(info.server_key)
         broadcast_addresses = not bool(entries)
-        self._async_withdraw_queued_answers(info, None)
+        self._async_withdraw_queued_answers(self._async_service_records(info), info, None)
         return asyncio.ensure_future(
             self._async_broadcast_service(info, _UNREGISTER_TIME, 0, broadcast_addresses)
         )
@@ -511,7 +520,7 @@ class Zeroconf(QuietLogger):
             self._add_broadcast_answer(out, info, 0)
         self.registry.async_remove(service_infos)
         for info in service_infos:
-            self._async_withdraw_queued_answers(info, None)
+            self._async_withdraw_queued_answers(self._async_service_records(info), info, None)
         return out
 
     async def async_unregister_all_services(self) -> None:
